@@ -3,7 +3,7 @@ import edit_engine as G
 
 META = {
     "id": "C02",
-    "claimed": False,
+    "claimed": True,
     "driver_id": "Edit",
     "coq_targets": ["Props/C02.vo", "Extract/Extract_Edit.vo"],
     "technique": 'Coq invariant / refinement proofs over the executable edit-machine model + step-by-step differential correspondence of the extracted model with the implementation + direct oracle on the implementation',
@@ -14,6 +14,14 @@ META = {
     "trusted": ["correspondence harness harness/editmachine.py (scenario generator, canonicalisation, numeric references for regionprops / IoU)",
                 "oracles harness/edit_oracles.py"],
 }
+
+
+def pre_build(ctx):
+    import translate_history
+
+    ok, msg = translate_history.regenerate()
+    if not ok:
+        raise RuntimeError("translator refused action_history.py: %s" % msg)
 
 
 def run(ctx):
